@@ -4,7 +4,9 @@ import os
 from nvlib import engine as E
 from nvlib.check import Prop
 
-DELAYS = [(-5, 1), (0, 2), (1, 8), (2, 6), (3, 4), (5, 3), (7, 2), (30, 2), (31, 4), (32, 8), (33, 4), (34, 1),
+BIG = 4294967296
+DELAYS = [(2147483647, 1), (2147483648, 1), (BIG - 1, 1), (BIG + 5, 1), (3 * BIG + 37, 1),
+          (-5, 1), (0, 2), (1, 8), (2, 6), (3, 4), (5, 3), (7, 2), (30, 2), (31, 4), (32, 8), (33, 4), (34, 1),
           (63, 2), (64, 5), (65, 2), (96, 2), (100, 1), (1000, 1)]
 ADV = [(0, 2), (1, 10), (2, 5), (3, 3), (5, 2), (31, 2), (32, 3), (33, 2), (64, 2), (70, 1), (200, 1)]
 
@@ -25,6 +27,13 @@ class C10(Prop):
                 "NV.C10.tie_sweepOrder",
                 "NV.C10.tie_sweepSlot",
                 "NV.C10.tie_sweepCond",
+                "NV.C10.tie_insertBefore",
+                "NV.C10.tie_handleSlot",
+                "NV.C10.tie_efunResult",
+                "NV.C10.reloadObj_ok",
+                "NV.C10.sim_reload",
+                "NV.C10.first_is_earliest",
+                "NV.C10.efun_pend",
                 "NV.C10.newCallOut_fst",
                 "NV.C10.newCallOut_snd",
                 "NV.C10.sweepSecond_eq",
@@ -190,6 +199,24 @@ class C10(Prop):
                                            "adv 1", "sweep", "adv 1", "sweep"], nobj=3)
         mk("giver-restored-after-sweep", ["gop o2 o1 co,0,1,a", "adv 1", "sweep", "vapply o1 do_op co,1,1,b",
                                           "gop o3 o1 co,2,1,c", "adv 1", "sweep"], nobj=3)
+        # reload_object: call_outs dropped, handles forgotten, scripts survive (they live in /c10/reg)
+        mk("reload", ["vapply o1 set_script co:c co,0,1,d", "vapply o1 do_op co,0,2,a", "vapply o1 do_op cofp,1,40,b",
+                      "vapply o2 do_op co,0,2,x", "vapply o1 do_op usage", "vapply o1 do_op reload", "vapply o1 do_op usage",
+                      "vapply o1 do_op fh,a", "vapply o1 do_op info", "vapply o1 do_op co,2,1,c", "adv 2", "sweep", "adv 1", "sweep"])
+        mk("reload-in-callback", ["vapply o1 set_script co:a reload;fh,b;co,3,1,z", "vapply o1 do_op co,1,1,b",
+                                  "vapply o1 do_op co,0,1,a", "vapply o1 do_op co,2,5,c", "adv 1", "sweep", "adv 5", "sweep"])
+        # print_call_out_usage: chunks of CHUNK_SIZE structures, one more chunk when the 21st is needed, also from a callback
+        mk("usage-chunks", ["vapply o1 do_op usage"] + ["vapply o1 do_op co,0,%d,t%d" % (i % 7 + 1, i) for i in range(20)] +
+           ["vapply o1 do_op usage", "vapply o1 set_script co:t0 usage;co,1,3,n1;usage;co,1,3,n2;usage", "adv 1", "sweep",
+            "vapply o1 do_op usage", "adv 9", "sweep", "vapply o1 do_op usage"])
+        # (int) conversion of the time left: delays of 2^31 seconds and more
+        mk("int-conversion", ["vapply o1 do_op co,0,2147483647,a", "vapply o1 do_op co,1,2147483648,b",
+                              "vapply o1 do_op co,2,4294967301,c", "vapply o1 do_op fh,a", "vapply o1 do_op fh,b",
+                              "vapply o1 do_op fh,c", "vapply o1 do_op fn,2", "vapply o1 do_op info", "vapply o1 do_op rmn,1",
+                              "vapply o1 do_op rmh,c", "adv 5", "sweep"])
+        mk("int-conversion-same-answer", ["vapply o1 do_op co,1,7,a", "vapply o1 do_op co,1,4294967303,b", "vapply o1 do_op fn,1",
+                                          "vapply o1 do_op rmn,1", "vapply o1 do_op fh,a", "vapply o1 do_op fh,b",
+                                          "vapply o1 do_op rmn,1", "vapply o1 do_op info"])
         mk("reschedule-chain", ["vapply o1 set_script co:a co,0,1,b", "vapply o1 set_script co:b co,0,32,c",
                                 "vapply o1 set_script co:c co,0,31,d", "vapply o1 do_op co,0,1,a", "adv 1", "sweep",
                                 "adv 1", "sweep", "adv 32", "sweep", "adv 31", "sweep"])
@@ -199,7 +226,7 @@ class C10(Prop):
         """ops performed by `self_obj`; st tracks tags; returns list of op strings and registers scripts"""
         ops = []
         for _ in range(n):
-            k = rng.weighted([("co", 8), ("cofp", 4), ("rmh", 3), ("rmn", 2), ("fh", 3), ("fn", 2), ("rmall", 1),
+            k = rng.weighted([("co", 8), ("cofp", 4), ("reload", 1), ("usage", 2), ("rmh", 3), ("rmn", 2), ("fh", 3), ("fn", 2), ("rmall", 1),
                               ("dest", 1), ("err", 1), ("info", 2)])
             if k in ("co", "cofp"):
                 st["tag"] += 1
